@@ -77,16 +77,24 @@ func init() {
 		Level: "exploration",
 		Rule: "random histories issuing create/update/patch/delete through the parent store (emps), a plain child store (emps/ext) and an extended child store (emps/xt) over mixed populations; " +
 			"after every transaction: FindById/LoadById visibility and shared fields through each store, child data presence, parent unique/set/fk indexes (structural monitor), QueryIds/IterateIds/IterateValidIds through each store vs the model, " +
-			"a whole-file scan for the id after deletes through either store, and an entity constraint on the parent store that must be handed the pre-transaction state for updates of plain and child entities alike; non-trivial = distinct (op kind, store routed through, entity child kind, outcome, configuration) tuples",
+			"a whole-file scan for the id after deletes through either store, and an entity constraint on the parent store that must be handed the pre-transaction state for updates of plain and child entities alike; part (b): a delete refused by a constraint of the child store (veto constraint, fk restrict from a store referencing the child store) must fail and change nothing whether issued through the parent or the child store, and remove both parts once the blocker is gone. non-trivial = distinct (op kind, store routed through, entity child kind, outcome, configuration) tuples",
 		Assumptions: []string{"creating through a child store an id that already exists as a plain parent, and deleting a plain parent through the non-extended child store, are not generated (undefined by the statement)",
 			"the harness update mapper copies the caller's shared fields onto the loaded child entity (what an application mapper must do)"},
 		Plan: func(tier core.Tier, seed int64) int {
 			if tier == core.Thorough {
-				return 60000
+				return 60000 + c15VetoCases
 			}
-			return 600
+			return 600 + c15VetoCases
 		},
 		Run: func(c *core.Ctx, idx int) {
+			nHist := 600
+			if c.Tier == core.Thorough {
+				nHist = 60000
+			}
+			if idx >= nHist {
+				c15VetoCase(c, idx-nHist)
+				return
+			}
 			r := c.Rand()
 			cfg := c15Configs[idx%len(c15Configs)]
 			w := map[string]int{"create": 10, "update": 8, "patch": 8, "delete": 6, "deletewhere": 2, "addlinks": 1, "rcinc": 1}
@@ -243,7 +251,8 @@ func init() {
 				}})
 		},
 		Promises: func(core.Tier) map[string][]string {
-			return map[string][]string{"parent_constraint": {"update of plain entity", "update of " + kmodel.Mgrs + " entity", "update of " + kmodel.Ctrs + " entity"}, "route": {
+			return map[string][]string{"child_level_block": {"veto constraint on the child store / through parent", "veto constraint on the child store / through child", "fk restrict from a store referencing the child store / through parent", "fk restrict from a store referencing the child store / through child"},
+				"parent_constraint": {"update of plain entity", "update of " + kmodel.Mgrs + " entity", "update of " + kmodel.Ctrs + " entity"}, "route": {
 				"create via emps/ext on plain:ok", "create via emps/xt on plain:ok", "create via emps on plain:ok",
 				"update via emps on emps/ext:ok", "update via emps on emps/xt:ok", "update via emps/ext on emps/ext:ok", "update via emps/xt on emps/xt:ok",
 				"patch via emps on emps/ext:ok", "patch via emps/ext on emps/ext:ok", "patch via emps/xt on emps/xt:ok",
